@@ -26,10 +26,19 @@ CONSTANTS Ver,        \* "1.0" | "1.1"
 (* What a leaf matches.  "m" is a member of the substitution group headed by  *)
 (* the global element "a"; "o" is an element of a foreign namespace.          *)
 (* "f" is a second head whose only other member is the FOREIGN element "o"    *)
-Members(h) == IF h = "a" THEN {"a", "m"} ELSE IF h = "f" THEN {"f", "o"} ELSE {h}
+(* "p" and "q" are two heads that SHARE the member "r" (XSD 1.1: substitutionGroup = "p q")    *)
+Members(h) == IF h = "a" THEN {"a", "m"} ELSE IF h = "f" THEN {"f", "o"}
+              ELSE IF h \in {"p", "q"} THEN {h, "r"} ELSE {h}
+(* "u" is an element in NO namespace (##local); the namespace constraints are          *)
+(* any, other (not the target namespace and not absent), tns, local, and the lists     *)
+(* tl = (##targetNamespace ##local), oo = (urn:O), ol = (urn:O ##local)                *)
 WildDen(c) == CASE c = "any"   -> Syms
                 [] c = "other" -> Syms \cap {"o"}
-                [] c = "tns"   -> Syms \ {"o"}
+                [] c = "tns"   -> Syms \ {"o", "u"}
+                [] c = "local" -> Syms \cap {"u"}
+                [] c = "tl"    -> Syms \ {"o"}
+                [] c = "oo"    -> Syms \cap {"o"}
+                [] c = "ol"    -> Syms \cap {"o", "u"}
 (* "x": a leaf given by the explicit sequence of names it matches (used when real  *)
 (* schemas are projected into this vocabulary: substitution groups, wildcards)    *)
 Matches(kind, x, a) == CASE kind = "e" -> a = x
@@ -264,6 +273,12 @@ LeafVarSet(z) == GroupsOver(VarLeaves(z), {"s", "c"}, OccSmall)
 FLeaves(z) == {<<"h", "f", o[1], o[2]>> : o \in {<<1, 1>>, <<0, 1>>, <<0, Inf>>}}
 LeafVarFSet(z) == {g \in GroupsOver(VarLeaves(z) \cup FLeaves(z), {"s", "c"}, OccSmall) :
                       \E i \in DOMAIN g[2] : g[2][i][1] = "h" /\ g[2][i][2] = "f"}
+(* XSD 1.1: two heads with a common member, next to a local element and a wildcard *)
+MultiHeadSet(z) == LET lv == {<<k[1], k[2], o[1], o[2]>> :
+                                k \in {<<"h", "p">>, <<"h", "q">>, <<"e", "b">>, <<"e", "r">>, <<"w", "tns">>},
+                                o \in {<<1, 1>>, <<0, 1>>, <<0, Inf>>}}
+                   IN {g \in GroupsOver(lv, {"s", "c"}, OccSmall) :
+                         \E i \in DOMAIN g[2] : g[2][i][1] = "h"}
 (* three particles: leaf, inner group, leaf (what lies BETWEEN two competing particles matters) *)
 Mid3Set(z) == LET lv == ElemLeaves({"a", "b"}, {<<1, 1>>, <<0, 1>>, <<0, Inf>>})
                   inner == GroupsOver(ElemLeaves({"a", "b"}, {<<1, 1>>, <<0, 1>>}), {"s", "c"}, {<<1, 1>>, <<0, 1>>})
@@ -291,6 +306,7 @@ Family(name) == CASE name = "Depth1"  -> Depth1Set(0)
                   [] name = "LeafVar" -> LeafVarSet(0)
                   [] name = "LeafVarF" -> LeafVarFSet(0)
                   [] name = "Mid3"    -> Mid3Set(0)
+                  [] name = "MultiHead" -> MultiHeadSet(0)
                   [] name = "Zero"    -> ZeroSet(0)
                   [] name = "Typed"   -> TypedSet(0)
                   [] name = "OCQ"     ->      \* bases of the open-content scope
@@ -365,6 +381,28 @@ Edits(b) ==
            i \in {j \in DOMAIN b[2] : IsLeaf(b[2][j])}}
   \cup {<<b, SetKids(b, <<b[2][2], b[2][1]>>), "swap">> : i \in {j \in {1} : Len(b[2]) = 2}}
 
+(* Restrictions of a single element / wildcard particle (family RestrW): the namespace    *)
+(* constraint of a wildcard is exchanged, the particle is replaced by an element or by a   *)
+(* repeated group around it (Particle Derivation OK: NSSubset, NSCompat, NSRecurseCheck-   *)
+(* Cardinality, RecurseAsIfGroup).  The edited particle is the LAST child of the base.      *)
+WildCons == {"any", "other", "tns", "local", "tl", "oo", "ol"}
+WLeafOcc == {<<0, 1>>, <<1, 2>>, <<0, Inf>>}
+WLeaves  == {<<"w", c, o[1], o[2]>> : c \in WildCons, o \in WLeafOcc}
+WElems   == {<<"e", "a", o[1], o[2]>> : o \in {<<0, 2>>, <<1, 2>>, <<0, Inf>>}}
+WEdits(b) ==
+  LET i == Len(b[2])
+      l == b[2][i]
+      With(x) == SetKids(b, [b[2] EXCEPT ![i] = x])
+  IN {<<b, b, "same">>}
+     \cup {<<b, With(<<"w", c, l[3], l[4]>>), "wild">> : c \in {x \in WildCons : l[1] = "w" /\ x # l[2]}}
+     \cup {<<b, With(SetOcc(l, o)), IF Tighter(o, <<l[3], l[4]>>) THEN "tighten" ELSE "widen">> :
+              o \in EditOcc \ {<<l[3], l[4]>>}}
+     \cup {<<b, With(<<"e", n, l[3], l[4]>>), "elem">> : n \in {x \in {"a"} : l[1] = "w"}}
+     \cup {<<b, With(<<k, inner, o[1], o[2]>>), "wrap">> :
+              k \in {"c", "s"}, o \in {<<1, 1>>, <<2, 2>>, <<0, 2>>, <<1, Inf>>},
+              inner \in {<<SetOcc(l, <<1, 2>>)>>, <<SetOcc(l, <<1, 1>>)>>, <<<<"e", "a", 1, 2>>>>,
+                         <<<<"e", "a", 1, 2>>, <<"e", "c", 1, 1>>>>}}
+
 RBases(name) == CASE name = "RestrQ" -> GroupsOver(ElemLeaves({"a", "b"}, OccSmall), {"s", "c"}, OccSmall)
                   [] name = "Restr1" -> Depth1Set(0)
                   [] name = "Restr2" -> Depth2QSet(0)
@@ -374,11 +412,15 @@ RBases(name) == CASE name = "RestrQ" -> GroupsOver(ElemLeaves({"a", "b"}, OccSma
                        IN {<<"a", ks, o[1], o[2]>> :
                              ks \in {<<x, y>> : x \in la, y \in lb} \cup {<<x, y, z>> : x \in la, y \in lb, z \in lc},
                              o \in O2}
+                  [] name = "RestrW" ->
+                       {<<k, ks, 1, 1>> : k \in {"s", "c"},
+                          ks \in {<<l>> : l \in WLeaves \cup WElems} \cup {<<<<"e", "b", 1, 1>>, l>> : l \in WLeaves}}
 (* a shard: the bases of one group kind and occurrence range (TLC evaluates   *)
 (* the set of initial states single-threaded, so the harness runs shards in   *)
 (* parallel)                                                                  *)
-RFamilyShard(name, k, o) == UNION {Edits(b) : b \in {x \in RBases(name) : x[1] = k /\ x[3] = o[1] /\ x[4] = o[2]}}
-RFamily(name) == UNION {Edits(b) : b \in RBases(name)}
+EditsOf(name, b) == IF name = "RestrW" THEN WEdits(b) ELSE Edits(b)
+RFamilyShard(name, k, o) == UNION {EditsOf(name, b) : b \in {x \in RBases(name) : x[1] = k /\ x[3] = o[1] /\ x[4] = o[2]}}
+RFamily(name) == UNION {EditsOf(name, b) : b \in RBases(name)}
 
 RInit == /\ model \in ModelSet           \* here: a set of <<base, derived, label>>
          /\ word = <<>>
